@@ -138,6 +138,7 @@ func plans(id, tier string) (Plan, bool) {
 		return Plan{Level: "exploration", Jobs: []Job{
 			{Pkg: pkgV2, Harness: "c12_trees", Shards: pick(4, 16)},
 			{Pkg: pkgV2, Harness: "c12_assets", Shards: 1},
+			{Pkg: pkgExtCLI, Harness: "c12_default", Shards: pick(8, 16)},
 		}}, true
 	case "C13":
 		return Plan{Level: "exploration", Jobs: []Job{
@@ -194,6 +195,7 @@ func plans(id, tier string) (Plan, bool) {
 			}
 			jobs = append(jobs, Job{Pkg: pkgBackend, Harness: "c19_pool", Instr: "backend", Params: fmt.Sprintf("files=%d;tasks=%d;headers=%s;policy=preemption;budget=%d", cf.files, cf.tasks, h, pick(2, 3)), Shards: pick(2, 8)})
 		}
+		jobs = append(jobs, Job{Pkg: pkgExtCLI, Harness: "c19_cli", Shards: pick(8, 16), MaxProcs: 2})
 		return Plan{Level: "model_checking", Jobs: jobs}, true
 	case "C20":
 		return Plan{Level: "model_checking", Jobs: []Job{
